@@ -569,7 +569,7 @@ func New(seed uint64, idx int, root string, o Opts) (*Case, error) {
 		s.DisableGlobbing = true
 		c.Feature("disable-globbing")
 	}
-	s.Umask = rng.Pick(r, []int64{0, 0, 0o002, 0o022, 0o027, 0o077})
+	s.Umask = rng.Pick(r, []int64{0, 0, 0o002, 0o022, 0o027, 0o077, 0o7022, 0o2002}) // (a umask may also mask setuid / setgid / sticky)
 	c.Feature(fmt.Sprintf("umask-%o", s.Umask))
 	s.Contents = g.Contents(r.Range(o.NEntries[0], o.NEntries[1]))
 	if o.Scripts {
